@@ -559,10 +559,17 @@ def _args_evaluator(an, fn):
         return None
     kinds = {"POSITIONAL_ONLY": 0, "POSITIONAL_OR_KEYWORD": 1, "VAR_POSITIONAL": 2, "KEYWORD_ONLY": 3, "VAR_KEYWORD": 4}
 
-    def ev(expr, argp, model, extra_env=None):
-        e = ObjEval(resolve, extra={"_ParameterKind": kinds, "Parameter": kinds, "OrderedDict": dict}, methods={m.name: m.node for m in ci.methods.values()})
+    all_assigns = {}
+    for mod in an.prog.modules.values():
+        if mod.name.startswith("code_data") and not mod.is_test:
+            all_assigns.update(mod.assigns)
+    all_assigns.update(fn.module.assigns)
+
+    def ev(expr, argp, model, extra_env=None, version=(3, 10)):
+        e = ObjEval(resolve, extra={"_ParameterKind": kinds, "Parameter": kinds, "OrderedDict": dict, "sys": {"version_info": tuple(version) + (0, "final", 0)}},
+                    methods={m.name: m.node for m in ci.methods.values()})
         e.properties = {m.name: m.node for m in ci.methods.values() if "property" in m.decorators}
-        e.module_assigns = fn.module.assigns
+        e.module_assigns = all_assigns
         env = {argp: Obj(model)}
         env.update(extra_env or {})
         return e.ev(expr, env)
